@@ -620,6 +620,28 @@ fn exercise(data: &[u8]) -> Outcome {
     o
 }
 
+/// `ctx.violation` with lazily built JSON: a signature that is already recorded
+/// only has its count increased (the unfixed tree fails in a large share of the
+/// merge schedules; hex-dumping all parts each time would dominate the run).
+fn report(ctx: &mut Ctx, clause: &str, site: &str, class: &str, detail: &dyn Fn() -> Value, case_data: &dyn Fn() -> Value) {
+    let sig = format!("{}|{}|{}|{}", ctx.property, clause, site, class);
+    if let Some(v) = ctx.violations.get_mut(&sig) {
+        v.count += 1;
+        return;
+    }
+    ctx.violation(clause, site, class, detail(), case_data());
+}
+
+fn report_panic(ctx: &mut Ctx, site: &str, class: &str, p: &verif_harness::Panicked, case_data: &dyn Fn() -> Value) {
+    // same signature layout as Ctx::panic_violation
+    let sig = format!("{}|panic|{}|msg={}|in={}|{}", ctx.property, site, p.msg_sig, p.file, class);
+    if let Some(v) = ctx.violations.get_mut(&sig) {
+        v.count += 1;
+        return;
+    }
+    ctx.panic_violation(site, class, p, case_data());
+}
+
 /// Parses one datagram under `catch`; panics and slices outside the datagram are
 /// reported here. `expect` is the kind whose header the datagram starts with
 /// (used for the coarse signature only).
@@ -629,7 +651,7 @@ fn try_parse(ctx: &mut Ctx, st: &mut Stats, data: &[u8], expect: Kind, how: &dyn
         Err(p) => {
             st.panics += 1;
             st.by_kind[expect.idx()] += 1;
-            ctx.panic_violation("parse", expect.name(), &p, json!({"datagram": hex(data), "how": how()}));
+            report_panic(ctx, "parse", expect.name(), &p, &|| json!({"datagram": hex(data), "how": how()}));
             None
         }
         Ok(o) => {
@@ -672,7 +694,7 @@ struct Budget {
 
 fn budget(tier: Tier) -> Budget {
     match tier {
-        Tier::Miri => Budget { trunc_step: 9, prng_datagrams: 2, all_clients: false, pair_sweep: false, max_base_clients: 2, mutations: 2 },
+        Tier::Miri => Budget { trunc_step: 23, prng_datagrams: 2, all_clients: false, pair_sweep: false, max_base_clients: 1, mutations: 2 },
         Tier::Asan => Budget { trunc_step: 1, prng_datagrams: 8, all_clients: false, pair_sweep: true, max_base_clients: 24, mutations: 8 },
         _ => Budget { trunc_step: 1, prng_datagrams: 24, all_clients: true, pair_sweep: true, max_base_clients: 24, mutations: 24 },
     }
@@ -715,14 +737,14 @@ fn prng_payload(rng: &mut Rng, kind: Kind) -> Vec<u8> {
     v
 }
 
-fn non_info_payload(rng: &mut Rng, kind: Kind) -> Vec<u8> {
+fn non_info_payload(rng: &mut Rng, kind: Kind, small: bool) -> Vec<u8> {
     match kind {
         Kind::List5 => {
-            let n = *rng.pick(&[0usize, 1, 2, 74, 75, 76]);
+            let n = if small { rng.range(0, 3) as usize } else { *rng.pick(&[0usize, 1, 2, 74, 75, 76]) };
             rng.bytes(n * 6)
         }
         Kind::List6 | Kind::List7 => {
-            let n = *rng.pick(&[0usize, 1, 2, 74, 75, 76]);
+            let n = if small { rng.range(0, 3) as usize } else { *rng.pick(&[0usize, 1, 2, 74, 75, 76]) };
             let mut v = Vec::new();
             for _ in 0..n {
                 let mut e = rng.bytes(18);
@@ -739,7 +761,7 @@ fn non_info_payload(rng: &mut Rng, kind: Kind) -> Vec<u8> {
         Kind::Count | Kind::Count7 => rng.bytes(2),
         Kind::Token7 => {
             let mut v = rng.bytes(4);
-            if rng.bool() {
+            if rng.bool() && !small {
                 v.extend(vec![0u8; 508]);
             }
             v
@@ -784,7 +806,7 @@ fn parse_case(ctx: &mut Ctx, idx: u64, rng: &mut Rng) {
         base = serialize(kind, &hdr, &fields);
     } else {
         let mut d = hdr.clone();
-        d.extend(non_info_payload(rng, kind));
+        d.extend(non_info_payload(rng, kind, ctx.tier == Tier::Miri));
         base = d;
     }
     let case_hash = fnv1a(&base) ^ (kind.idx() as u64) << 56;
@@ -807,8 +829,17 @@ fn parse_case(ctx: &mut Ctx, idx: u64, rng: &mut Rng) {
 
     // ---- numeric fields over their boundaries
     if kind.is_info() {
-        let sweep = sweep_values(kind.max_clients());
-        let raws: &[&[u8]] = if kind == Kind::Info7 { RAW_VARINTS } else { RAW_TEXT_INTS };
+        let mut sweep = sweep_values(kind.max_clients());
+        let mut raws: &[&[u8]] = if kind == Kind::Info7 { RAW_VARINTS } else { RAW_TEXT_INTS };
+        let mut hostile: &[&[u8]] = HOSTILE_STRS;
+        if ctx.tier == Tier::Miri {
+            // the Miri tier only has room for the named boundaries
+            let m = kind.max_clients();
+            sweep = vec![-1, m + 1, 64, i32::MAX as i64];
+            sweep.dedup();
+            raws = &raws[1..2];
+            hostile = &hostile[5..7];
+        }
         let nfields = fields.len();
         let first_client = fields.iter().position(|f| f.name == "client_name").unwrap_or(nfields);
         let per_client = match kind {
@@ -839,7 +870,7 @@ fn parse_case(ctx: &mut Ctx, idx: u64, rng: &mut Rng) {
             } else if i < first_client + per_client || i >= last_client {
                 let mut fs2 = fields.clone();
                 let long = vec![b'L'; 300];
-                for s in HOSTILE_STRS.iter().copied().chain(std::iter::once(&long[..])) {
+                for s in hostile.iter().copied().chain(std::iter::once(&long[..])) {
                     fs2[i].val = Val::Str(s.to_vec());
                     let d = serialize(kind, &hdr, &fs2);
                     try_parse(ctx, &mut st, &d, kind, &|| format!("string field {} (#{}) = {}", name, i, hex_short(s)));
@@ -885,7 +916,7 @@ fn parse_case(ctx: &mut Ctx, idx: u64, rng: &mut Rng) {
         if kind == Kind::Info664 || kind == Kind::Info6ExMore || kind == Kind::Info6Ex {
             // Datagrams whose counts are valid so that the client loop is reached with
             // every offset / packet number, carrying 0, 1, 2 and 24 clients.
-            let carried: &[usize] = if ctx.tier == Tier::Miri { &[1, 2] } else { &[0, 1, 2, 24, 30] };
+            let carried: &[usize] = if ctx.tier == Tier::Miri { &[1] } else { &[0, 1, 2, 24, 30] };
             let mut extra = sweep.clone();
             extra.extend([40, 41, 42, 62]);
             for &n in carried {
@@ -948,7 +979,7 @@ fn parse_case(ctx: &mut Ctx, idx: u64, rng: &mut Rng) {
         ctx.count("byte_mutations", 1);
     }
 
-    if ctx.want_sample() && idx % 13 >= 5 && idx >= 13 {
+    if ctx.samples.len() < 3 && idx % 13 >= 5 && idx >= 13 && idx % 4 == 0 {
         ctx.sample(json!({"phase": "parse", "kind": kind.name(), "base": hex_short(&base), "base_len": base.len(), "fields": fields.len(), "parses_in_case": st.parses}));
     }
     let parses = st.parses;
@@ -1136,6 +1167,17 @@ fn info_differs(info: &ServerInfo, s: &Server, version: ServerInfoVersion, want:
     if !header_ok {
         return Some("header fields differ from the main packet".into());
     }
+    // Fast path: element-wise equal to the sorted expectation => equal multisets
+    // (whatever order the library chose); anything else goes through the sort below.
+    if info.clients.len() == want.len()
+        && info
+            .clients
+            .iter()
+            .zip(want)
+            .all(|(c, w)| &c.name[..] == w.0 && &c.clan[..] == w.1 && c.country == w.2 && c.score == w.3 && c.flags == w.4)
+    {
+        return None;
+    }
     let mut got: Vec<ClientTuple> = info
         .clients
         .iter()
@@ -1301,14 +1343,19 @@ fn prng_schedule(rng: &mut Rng, k: usize) -> Vec<usize> {
 }
 
 fn merge_case(ctx: &mut Ctx, idx: u64, rng: &mut Rng) {
-    let variant = [Variant::L64Std, Variant::Ex, Variant::L64Split, Variant::ExPno64][((idx / 8) % 4) as usize];
+    let variant = if ctx.tier == Tier::Miri {
+        // six small cases per shard: both code paths, two and three parts
+        [Variant::L64Split, Variant::Ex, Variant::L64Split, Variant::Ex, Variant::ExPno64, Variant::L64Std][(idx % 6) as usize]
+    } else {
+        [Variant::L64Std, Variant::Ex, Variant::L64Split, Variant::ExPno64][((idx / 8) % 4) as usize]
+    };
     let exhaustive_k = match ctx.tier {
         Tier::Thorough => 4,
         Tier::Miri => 2,
         _ => 3,
     };
     let target_k = match (ctx.tier, idx % 8) {
-        (Tier::Miri, i) => 1 + (i % 3) as usize,
+        (Tier::Miri, i) => [2, 2, 3, 3, 2, 1][(i % 6) as usize],
         (_, 0) => 1,
         (_, 1) => 2,
         (_, 2) => 3,
@@ -1375,7 +1422,14 @@ fn merge_case(ctx: &mut Ctx, idx: u64, rng: &mut Rng) {
     if exhaustive {
         let maxmult = match (ctx.tier, k) {
             (Tier::Miri, _) => 2,
-            (Tier::Thorough, 1..=3) => 3,
+            // {1,2,3}^3 has 5052 orderings: one group of cases in four
+            (Tier::Thorough, 3) => {
+                if (idx / 32) % 4 == 0 {
+                    3
+                } else {
+                    2
+                }
+            }
             (_, 1..=2) => 3,
             _ => 2,
         };
@@ -1414,7 +1468,7 @@ fn merge_case(ctx: &mut Ctx, idx: u64, rng: &mut Rng) {
         let r = match res {
             Err(p) => {
                 any_fail = true;
-                ctx.panic_violation("merge", variant.class(), &p, case_data());
+                report_panic(ctx, "merge", variant.class(), &p, &case_data);
                 continue;
             }
             Ok(r) => r,
@@ -1427,12 +1481,13 @@ fn merge_case(ctx: &mut Ctx, idx: u64, rng: &mut Rng) {
         }
         if let Some(f) = &r.fail {
             any_fail = true;
-            ctx.violation(
+            report(
+                ctx,
                 f.clause,
                 "PartialServerInfo::merge",
                 &class_of(f.dup_before),
-                json!({"what": f.detail, "at_step": f.step, "schedule": sched, "parts": k, "merge_errors": r.merge_err}),
-                case_data(),
+                &|| json!({"what": f.detail, "at_step": f.step, "schedule": sched, "parts": k, "merge_errors": r.merge_err}),
+                &case_data,
             );
             continue;
         }
@@ -1441,12 +1496,13 @@ fn merge_case(ctx: &mut Ctx, idx: u64, rng: &mut Rng) {
             Some((ref_sched, ref_info)) => {
                 if *ref_info != r.final_info {
                     any_fail = true;
-                    ctx.violation(
+                    report(
+                        ctx,
                         "schedule-dependent",
                         "PartialServerInfo::take_info",
                         &class_of(sched.len() > k),
-                        json!({"schedule": sched, "reference_schedule": ref_sched, "final": format!("{:?}", r.final_info), "reference_final": format!("{:?}", ref_info)}),
-                        case_data(),
+                        &|| json!({"schedule": sched, "reference_schedule": ref_sched, "final": format!("{:?}", r.final_info), "reference_final": format!("{:?}", ref_info)}),
+                        &case_data,
                     );
                 }
             }
@@ -1513,17 +1569,22 @@ fn main() {
         "an extended 'more' packet numbered 64 is outside doc/serverinfo_extended.md ('less than 64'): the case is skipped when the parser refuses the datagram and judged like any other part when it accepts it".into(),
         "well-formed datagrams must be recognised and parsed (clause wellformed-rejected): without that the merge half could not be observed at all".into(),
     ];
-    let n_parse = ctx.volume(2_600, 78_000, 13, 260);
+    // Wall-clock per phase is recorded for calibration only; nothing is decided on it.
+    let t0 = std::time::Instant::now();
+    let n_parse = ctx.volume(3_900, 78_000, 13, 390);
     ctx.run_cases("parse", n_parse, |ctx, idx, rng| {
         ctx.arm("parse", 60.0);
         parse_case(ctx, idx, rng);
         ctx.disarm();
     });
-    let n_merge = ctx.volume(1_600, 48_000, 6, 160);
+    ctx.max("info_wall_ms_parse", t0.elapsed().as_millis() as u64);
+    let t1 = std::time::Instant::now();
+    let n_merge = ctx.volume(9_600, 32_000, 6, 480);
     ctx.run_cases("merge", n_merge, |ctx, idx, rng| {
         ctx.arm("merge", 300.0);
         merge_case(ctx, idx, rng);
         ctx.disarm();
     });
+    ctx.max("info_wall_ms_merge", t1.elapsed().as_millis() as u64);
     ctx.finish();
 }
